@@ -286,11 +286,13 @@ func (g *Gen) funcLit(name string, declare bool) (*FuncLit, *gfunc) {
 	}
 	ptypes := make([]T, np)
 	for i := range ptypes {
-		switch g.pick(5) {
+		switch g.pick(6) {
 		case 0, 1, 2:
 			ptypes[i] = tInt
 		case 3:
 			ptypes[i] = tStr
+		case 4:
+			ptypes[i] = tFloat // defaults such as 2.0 must stay floats (division, type())
 		default:
 			ptypes[i] = tListInt
 		}
